@@ -333,7 +333,7 @@ def run_api(cx):
     cx.rule("lyb api: print(LYB) -> parse(LYB) -> compare(FULL_RECURSION|DEFAULTS) + lyd_lyb_data_length + reprint equality on generated "
             "schemas (containers, presence, lists, leaf-lists, 10 leaf types, defaults) under with-defaults explicit/trim/all/all-tag/"
             "impl-tag; string values of k*LYB_SIZE_MAX+d (k<=3, |d|<=40) at nesting 1-6; up to 250 sibling leaves and %d list instances; "
-            "sibling names colliding on collision ids 0..2 found offline; witnesses of F27, F33, F51" % cx.n(300, 2000))
+            "sibling names colliding on collision ids 0..2 found offline; witnesses of F27, F33, F70" % cx.n(300, 2000))
     rr = cx.run_impl(API, lines, component="lyb", timeout=cx.n(600, 3000))
     for i, (y, wd, spec, meta) in enumerate(cases):
         r = rr.get(str(i), ["err", "NoReply"])
@@ -364,7 +364,7 @@ def classify_crash(case):
         return None
     wd, err = t[5], case.get("stderr", "")
     if "left shift of negative value" in err and "printer_lyb.c" in err:
-        return "F51"
+        return "F70"
     if wd in ("all-tag", "impl-tag") and " default " in yang and ("parser_lyb.c" in err or "lyb_read" in err):
         return "F33"
     return None
